@@ -196,6 +196,8 @@ class BodyInfo:
             e = self.operand(op["op"], val)
             while e[0] == "cast":
                 e = e[2]
+            if e[0] == "agg" and e[1] == "closure" and e[2] in op["cands"]:
+                return const(op["cands"].index(e[2]))      # a non-capturing closure coerced to a fn pointer
             if e[0] == "fn":
                 return const(op["cands"].index(e[1]) if e[1] in op["cands"] else len(op["cands"]))
             return ("unk", "fnid")
